@@ -73,6 +73,7 @@ func c20Reexec(r *hk.Run, rng *hk.Rand) {
 		c := req.C()
 		q := c.R()
 		var ops []string
+		var readable []string
 		var clientCred, reqCred *cred
 		var obs []string
 		sends := 0
@@ -96,6 +97,7 @@ func c20Reexec(r *hk.Run, rng *hk.Rand) {
 				}
 				clientCred = &cr
 				key += "|C" + header(cr)
+				readable = append(readable, "client: "+header(cr))
 			case 2: // request-level; preferably exactly what the client has right now
 				cr := poolC[rng.Intn(len(poolC))]
 				if clientCred != nil && rng.Chance(60) {
@@ -110,6 +112,7 @@ func c20Reexec(r *hk.Run, rng *hk.Rand) {
 				}
 				reqCred = &cr
 				key += "|R" + header(cr)
+				readable = append(readable, "request: "+header(cr))
 			default:
 				id := fmt.Sprintf("re%d-%d", s, sends)
 				_, err := q.SetHeader("X-Case", id).Get(base + "/re")
@@ -117,9 +120,10 @@ func c20Reexec(r *hk.Run, rng *hk.Rand) {
 				vs, seen := got[id]
 				mu.Unlock()
 				ops = append(ops, "Send")
+				readable = append(readable, "send")
 				key += "|S"
 				sends++
-				in := map[string]interface{}{"sequence": s, "ops": strings.Join(ops, "; "), "execution": sends}
+				in := map[string]interface{}{"sequence": s, "ops": strings.Join(readable, "; "), "execution": sends}
 				if err != nil || !seen || len(vs) > 1 {
 					r.Fail(hk.Failure{Sig: "reexec:not-transmitted", What: "execution did not reach the origin with at most one Authorization header", Input: in, Got: fmt.Sprint(err, vs)})
 					ok = false
